@@ -652,3 +652,53 @@ Print Assumptions term_monotone_run.
 Print Assumptions vote_once_run.
 Print Assumptions wf_node_step.
 Print Assumptions leader_backed.
+
+(* ---- the electorate of a vote round is every listed voter but the candidate, each once ---- *)
+Lemma electorate_spec : forall me vs seen x,
+  In x (map fst (electorate me seen vs)) <-> In x (map fst vs) /\ x <> me /\ ~ In x seen.
+Proof.
+  intros me vs. induction vs as [|v r IH]; intros seen x; cbn [electorate map In].
+  - tauto.
+  - destruct (N.eqb_spec (fst v) me) as [Eme|Nme]; cbn [orb].
+    + rewrite IH. subst me. split; [tauto|]. intros ([E|H] & Hx & Hs); [congruence|tauto].
+    + destruct (existsb (N.eqb (fst v)) seen) eqn:Ex.
+      * rewrite IH. apply existsb_exists in Ex. destruct Ex as (y & Hy & Ey). apply N.eqb_eq in Ey. subst y.
+        split; [tauto|]. intros ([E|H] & Hx & Hs); [subst x; contradiction|tauto].
+      * cbn [map In fst]. rewrite IH. cbn [In].
+        assert (Hns : ~ In (fst v) seen).
+        { intros H. assert (existsb (N.eqb (fst v)) seen = true); [|congruence].
+          apply existsb_exists. exists (fst v). split; [exact H|apply N.eqb_refl]. }
+        split.
+        -- intros [E|(H & Hx & Hs)]; [subst x; tauto|]. split; [tauto|]. split; [exact Hx|]. intros H'. apply Hs. now right.
+        -- intros ([E|H] & Hx & Hs); [now left|]. destruct (N.eq_dec (fst v) x) as [E|NE]; [now left|right].
+           split; [exact H|]. split; [exact Hx|]. intros [E|H']; [contradiction|contradiction].
+Qed.
+
+Lemma electorate_nodup : forall me vs seen, NoDup (map fst (electorate me seen vs)).
+Proof.
+  intros me vs. induction vs as [|v r IH]; intros seen; cbn [electorate map]; [constructor|].
+  destruct ((fst v =? me) || existsb (N.eqb (fst v)) seen); [apply IH|].
+  cbn [map]. constructor; [|apply IH]. intros H. apply electorate_spec in H. destruct H as (_ & _ & H). apply H. now left.
+Qed.
+
+(* a round is won only with the candidate's own vote plus grants adding up to a strict majority of ALL voters
+   (reachable or not), the candidate included *)
+Theorem round_won_needs_majority_of_all_voters : forall me t vs,
+  round_won me t vs = 1 ->
+  let el := electorate me [] vs in
+  N.of_nat (length el) + 1 < 2 * (round_granted el + 1).
+Proof.
+  intros me t vs H el. unfold round_won in H. fold el in H.
+  destruct el as [|e0 el0] eqn:E; [discriminate|].
+  set (g := round_granted (e0 :: el0)) in *. set (d := round_denied (e0 :: el0)) in *.
+  set (v := N.of_nat (length (e0 :: el0))) in *.
+  assert (Hl : en_role (fst (estep (round_node me t) (ETimeout g 0 v d))) = Leader).
+  { cbn [estep round_node en_role] in *. cbv zeta in *.
+    destruct (v =? 0); [reflexivity|].
+    destruct ((0 <? d) && (0 <? 0) && _); [cbn in H; discriminate|].
+    destruct ((0 <? d) && log_ok _ (0, 0)); [cbn in H; discriminate|].
+    destruct (is_majority (g + 1) (v + 1)); [reflexivity|cbn in H; discriminate]. }
+  destruct (leader_backed (round_node me t) g 0 v d ltac:(cbn; discriminate) Hl) as [V0|Hm]; [|exact Hm].
+  subst v. cbn [length] in V0. lia.
+Qed.
+Print Assumptions round_won_needs_majority_of_all_voters.
